@@ -13,8 +13,10 @@ SpecCases == {[blk |-> "spec", n |-> n, data |-> <<Row(n, ab[1], ab[2], 1), Row(
                k |-> k, seed |-> s]
               : n \in 3..NMax, ab \in {<<1, 2>>, <<3, 1>>, <<2, 5>>}, k \in {1, 2, 3, 5}, s \in 0..(Seeds - 1)}
 TwinCases == {[blk |-> "twin", p |-> p, x |-> [t \in 1..LenT |-> 16 * p[t] + (t - 1)], dim |-> d, md |-> md,
-               seed |-> (p[1] + 2 * p[2] + d + md) % 5]
-              : p \in [1..LenT -> 0..2], d \in 1..2, md \in 0..2}
+               seed |-> (p[1] + 2 * p[2] + d + md) % 5,
+               \* prior = 1: the object has already produced twin surrogates for the OTHER embedding dimension
+               prior |-> pr]
+              : p \in [1..LenT -> 0..2], d \in 1..2, md \in 0..2, pr \in 0..1}
 Cases == SetToSeq(SpecCases) \o SetToSeq(TwinCases)
 Numbered == [k \in 1..Len(Cases) |-> [case |-> "u" \o ToString(k)] @@ Cases[k]]
 ASSUME ndJsonSerialize(IOEnv.GEN_OUT, Numbered)
